@@ -20,6 +20,7 @@ package s2
 import (
 	"math"
 
+	"github.com/golang/geo/r3"
 	"github.com/golang/geo/s1"
 )
 
@@ -94,17 +95,29 @@ func UpdateMinInteriorDistance(x, a, b Point, minDist s1.ChordAngle) (s1.ChordAn
 //
 // This requires that all points are unit length.
 func Project(x, a, b Point) Point {
-	aXb := a.PointCross(b)
-	// Find the closest point to X along the great circle through AB.
-	p := x.Sub(aXb.Mul(x.Dot(aXb.Vector) / aXb.Norm2()))
+	// If X is more than 90 degrees from both endpoints, the closest point is an
+	// endpoint (see interiorDist). This also keeps the two sign tests below,
+	// which are rounding noise for an edge only a few ulps long, from accepting
+	// the projection of an X on the far side of the sphere.
+	xa2, xb2 := x.Sub(a.Vector).Norm2(), x.Sub(b.Vector).Norm2()
+	if math.Min(xa2, xb2) <= 2+16*dblEpsilon {
+		aXb := a.PointCross(b)
+		// Find the closest point to X along the great circle through AB: the
+		// component of X perpendicular to the unit normal N, computed as
+		// (N x X) x N. Unlike X - (X.N)N this is perpendicular to N to within
+		// rounding of its own length even when X is nearly parallel to N (X next
+		// to the pole of AB), so the normalized result stays on the great circle.
+		n := aXb.Normalize()
+		p := scaleUpTiny(n.Cross(x.Vector).Cross(n))
 
-	// If this point is on the edge AB, then it's the closest point.
-	if Sign(aXb, a, Point{p}) && Sign(Point{p}, b, aXb) {
-		return Point{p.Normalize()}
+		// If this point is on the edge AB, then it's the closest point.
+		if p != (r3.Vector{}) && Sign(aXb, a, Point{p}) && Sign(Point{p}, b, aXb) {
+			return Point{p.Normalize()}
+		}
 	}
 
 	// Otherwise, the closest point is either A or B.
-	if x.Sub(a.Vector).Norm2() <= x.Sub(b.Vector).Norm2() {
+	if xa2 <= xb2 {
 		return a
 	}
 	return b
